@@ -157,6 +157,36 @@ func runC08(r *Report, tier string) {
 								bad = "slice element store at " + P.instrPos(in)
 							}
 						}
+					case *ssa.MapUpdate:
+						// an insertion under a key other than the range key itself can
+						// collide for two source entries: which value survives then depends
+						// on the iteration order, unless duplicates are refused first
+						if _, isSet := in.Value.Type().Underlying().(*types.Struct); isSet {
+							continue // a seen-set
+						}
+						kt := P.terms.of(in.Key)
+						rk := &Term{Op: "res", S: "1", Args: []*Term{{Op: "next", Args: []*Term{{Op: "range", Args: []*Term{P.terms.of(l.over)}}}}}}
+						if kt.eq(rk) {
+							continue
+						}
+						if kt.Op == "const" || (kt.Op == "iface" && len(kt.Args) == 1 && kt.Args[0].Op == "const") {
+							continue // a fixed key
+						}
+						tested := false
+						for _, p := range P.enumPaths(fn, l.body, func(bb *ssa.BasicBlock) bool { return bb == l.header }, false) {
+							if !p.contains(in.Block()) {
+								continue
+							}
+							if t, _ := P.dupTested(p.conds, P.labelNormalizer()); t {
+								tested = true
+							} else {
+								tested = false
+								break
+							}
+						}
+						if !tested {
+							bad = "map insertion under a transformed key (" + truncate(kt.String(), 60) + ") without a duplicate test at " + P.instrPos(in) + ": colliding entries are merged in iteration order"
+						}
 					}
 				}
 			}
